@@ -246,6 +246,9 @@ pub struct MacroDef {
    pub body: Vec<BodyItem>,
    pub head: Vec<HeadItem>,
    pub is_head: bool,
+   /// the body is written with a comma after its last item (legal; the expansion must not change)
+   #[serde(default)]
+   pub trailing_comma: bool,
 }
 
 #[derive(Clone, Debug, Serialize, Deserialize, PartialEq, Eq, Hash, Default)]
